@@ -1,7 +1,7 @@
 import H264.RbspInit
 import H264.DecodeNal
 import H264.DecodeNalSpec
-import H264.ByteProof
+import H264.ByteProofC02
 /-! # C02 — RBSP extraction removes exactly the emulation-prevention bytes, for any chunking
 
 Model: `Rbsp.BR` mirrors `rbsp::ByteReader` at call level (`try_fill_buf_slow` scanner, `fill_buf`, `consume`, `read`)
